@@ -791,6 +791,16 @@ def check(run):
             for lst in [desc["suites"]] + [x for su in G._walk_suites(desc["suites"]) for x in (su["suites"], su["tests"])]:
                 run.rng.shuffle(lst)
             run.count("reports_listed_in_another_order_than_started")
+        if run.rng.random() < 0.2:
+            # names with a dot in them (a parametrized test named check_v1.2, a suite named api.v1): nodes are addressed by
+            # their hierarchy of names, never by a dotted path string
+            for su in G._walk_suites(desc["suites"]):
+                if run.rng.random() < 0.5 and "." not in su["name"]:
+                    su["name"] = su["name"] + ".v" + str(run.rng.randint(1, 3))
+                for t in su["tests"]:
+                    if run.rng.random() < 0.3 and "." not in t["name"]:
+                        t["name"] = t["name"] + "_1." + str(run.rng.randint(0, 9))
+            run.count("reports_with_dotted_names")
         if run.rng.random() < 0.3:
             kind, desc = perturb_report(run.rng, desc)
         try:
